@@ -425,55 +425,187 @@ def tab13(units, R):
 COMMENT_DELIMS = {'skip_oneline_comment': ('//', '\n'), 'skip_multiline_comment': ('/*', '*/')}
 
 
+def _axes_in(e, env, axis_of, depth=0):
+    """Axes (byte positions relative to the iteration start) an expression depends on, looking through locals."""
+    out = set()
+    e = strip_casts(e)
+    if depth > 6:
+        return out
+    for x in walk(e):
+        if x.get('k') in ('idx', 'un'):
+            a = axis_of(x)
+            if a is not None:
+                out.add(a)
+        if x.get('k') == 'ref' and x.get('d') in env:
+            out |= _axes_in(env[x['d']][0], env, lambda n, ax=env[x['d']][1]: ax(n), depth + 1)
+    return out
+
+
 def tab19(units, R):
-    """A comment skipper first steps over its opener, then recognises its closer *at the cursor* (bytes 0..len-1
-    compared with the closer, nothing else) and steps over exactly the closer before returning."""
-    from ..dataflow import access
+    """A comment skipper first steps over its opener, then leaves its scanning loop only at the terminator or when the
+    bytes *at* the cursor spell its closer, having stepped over exactly the closer.  Decided by following every path of
+    one loop iteration with the sets of values the bytes at cursor+0, +1, ... can have on it (bytes behind the cursor may not
+    take part in the decision)."""
+    from ..dataflow import access, node_effects
+    from .parse import _evalb
     u = units['cJSON.c']
-    n = 0
+    n_ob = 0
     for name, (opener, closer) in COMMENT_DELIMS.items():
         fn = u.fn(name)
         cfg = fn.cfg()
-        advs = []
-        for a in assignments(fn):
-            if a['op'] == '+=' and const_val(a['r']) is not None:
-                advs.append((a, const_val(a['r'])))
-        first = min(advs, key=lambda t: (t[0]['loc'][0], t[0]['loc'][1])) if advs else None
-        n += 1
-        R.ob('TAB19', fn, first[0] if first else None, '%s steps over its opener %r first' % (name, opener),
-             first is not None and first[1] == len(opener) and cfg.dominates(node_containing(cfg, first[0]).id, cfg.exit.id),
-             'advance by %s' % (first[1] if first else None), key='opener:' + name)
-        # the closer test: the conjunction guarding the closing advance
+        pp = [p for p in fn.params if u.ty(p['ty'])['s'].count('*') == 2]
+        if len(pp) != 1:
+            raise AnalysisBroken('TAB19: %s does not take one char** cursor' % name)
+        ppd = pp[0]['d']
+        heads = [n for n in cfg.nodes if n.kind == 'nop' and n.name == 'loop-head']
+        if len(heads) != 1:
+            raise AnalysisBroken('TAB19: %s should have exactly one scanning loop' % name)
+        head = heads[0]
+        loop = cfg.reachable(head.id) & cfg.reachable(head.id, forward=False)
+        ALL = frozenset(range(256))
+
+        def cursor_of(e):
+            """'*pp' or the name of a local char pointer"""
+            e = strip_casts(e)
+            if e.get('k') == 'un' and e['op'] in ('post++', 'post--', 'pre++', 'pre--'):
+                e = strip_casts(e['e'])
+            if e.get('k') == 'un' and e['op'] == '*' and is_ref(e['e']) and strip_casts(e['e'])['d'] == ppd:
+                return '*pp'
+            if e.get('k') == 'ref' and e.get('dk') == 'local' and u.ty(e['ty'])['c'] == 'ptr' and 'char' in u.ty(e['ty'])['s']:
+                return e['n']
+            return None
+
+        # state: (node, disp: {cursor: displacement from the origin}, B: {axis: set}, env), origin = cursor at function
+        # entry before the loop, cursor at the loop head inside the loop
+        results = {'opener': set(), 'exits': []}
+        seen = set()
+        work = [(cfg.entry.id, (('*pp', 0),), (), False)]
+        steps = 0
+        while work:
+            nid, dispt, Bt, inloop = work.pop()
+            steps += 1
+            if steps > 20000:
+                raise AnalysisBroken('TAB19: exploration of %s does not finish' % name)
+            node = cfg.nodes[nid]
+            disp = dict(dispt)
+            B = dict(Bt)
+            if nid == head.id:
+                if not inloop:
+                    results['opener'].add(tuple(sorted(disp.items(), key=repr)))
+                # new iteration: the origin moves to the cursor, nothing is known about the bytes ahead
+                known = [d for d in disp.values() if d is not None]
+                ref = max(known) if known else 0
+                # cursors that lag behind the scanning cursor are stale until they are assigned again
+                disp = {c: (0 if d == ref else None) for c, d in disp.items()}
+                B = {}
+                inloop = True
+            if nid == cfg.exit.id:
+                if inloop:
+                    results['exits'].append((dict(disp), dict(B), node))
+                continue
+            sig = (nid, tuple(sorted(disp.items(), key=repr)), tuple(sorted((a, v) for a, v in B.items())), inloop)
+            if sig in seen:
+                continue
+            seen.add(sig)
+            def axis_of(x, disp=disp):
+                acc = access(x)
+                if acc is None:
+                    return None
+                c = cursor_of(acc[0])
+                if c is None or c not in disp or disp[c] is None or not isinstance(acc[1], int):
+                    return None
+                return disp[c] + acc[1]
+            # effects on the cursors (after the condition / expression has been evaluated with the old positions)
+            disp2 = dict(disp)
+            for ev in node_effects(node):
+                if ev.kind == 'incdec':
+                    c = cursor_of(ev.lhs)
+                    if c in disp2 and disp2[c] is not None:
+                        disp2[c] += ev.delta
+                elif ev.kind == 'store':
+                    c = cursor_of(ev.lhs)
+                    if c is not None:
+                        if ev.node['op'] in ('+=', '-=') and const_val(ev.node['r']) is not None and c in disp2:
+                            if disp2[c] is not None:
+                                disp2[c] += const_val(ev.node['r']) * (1 if ev.node['op'] == '+=' else -1)
+                        elif ev.node['op'] == '=':
+                            r = strip_casts(ev.node['r'])
+                            k = 0
+                            if r.get('k') == 'bin' and r['op'] == '+' and const_val(r['r']) is not None:
+                                k = const_val(r['r'])
+                                r = strip_casts(r['l'])
+                            src = cursor_of(r)
+                            if src in disp2 and disp2[src] is not None:
+                                disp2[c] = disp2[src] + k
+                            else:
+                                disp2[c] = None
+                elif ev.kind == 'declinit' and ev.rhs is not None:
+                    d = ev.lhs
+                    if u.ty(d['ty'])['c'] == 'ptr' and 'char' in u.ty(d['ty'])['s']:
+                        r = strip_casts(ev.rhs)
+                        k = 0
+                        if r.get('k') == 'bin' and r['op'] == '+' and const_val(r['r']) is not None:
+                            k = const_val(r['r'])
+                            r = strip_casts(r['l'])
+                        src = cursor_of(r)
+                        if src in disp2 and disp2[src] is not None:
+                            disp2[d['n']] = disp2[src] + k
+            for (y, label) in cfg.succ[nid]:
+                B2 = dict(B)
+                if label is not None and label[0] in ('T', 'F') and node.kind == 'branch':
+                    axes = set()
+                    for x in walk(label[1]):
+                        if x.get('k') in ('idx', 'un'):
+                            a = axis_of(x)
+                            if a is not None:
+                                axes.add(a)
+                    if len(axes) == 1:
+                        a = axes.pop()
+                        cur = B2.get(a, ALL)
+                        keep = set()
+                        for v in cur:
+                            val = _evalb(label[1], v, {}, u, lambda base: True)
+                            if val is None:
+                                keep = set(cur)
+                                break
+                            if bool(val) == (label[0] == 'T'):
+                                keep.add(v)
+                        if not keep:
+                            continue
+                        B2[a] = frozenset(keep)
+                    elif len(axes) > 1:
+                        raise AnalysisBroken('TAB19: %s: condition mixes several bytes' % fn.where(label[1]))
+                work.append((y, tuple(sorted(disp2.items(), key=repr)), tuple(sorted(B2.items())), inloop))
+        # opener
+        n_ob += 1
+        op_disps = {max([v for v in dict(t).values() if v is not None] or [0]) for t in results['opener']}
+        R.ob('TAB19', fn, None, '%s steps over its opener %r before scanning' % (name, opener), op_disps == {len(opener)},
+             'cursor displacement at the loop head: %s' % sorted(op_disps), key='opener:' + name)
+        # exits of the scanning loop
         found = False
-        for s in fn.nodes():
-            if s.get('k') != 'if':
+        for (disp, B, node) in results['exits']:
+            dmax = disp.get('*pp')       # how far the caller's cursor ends up from where this iteration started
+            constrained = {a: v for a, v in B.items() if v != ALL}
+            if any(a < 0 for a in constrained):
+                n_ob += 1
+                R.ob('TAB19', fn, None, '%s decides only on bytes at or after the cursor' % name, False,
+                     'a byte %d position(s) behind the cursor takes part in ending the comment' % -min(constrained), key='behind:' + name)
                 continue
-            parts = [cmp_parts(p) for p in _flatten(s['c'], '&&')]
-            if not parts or any(p is None or p[1] != '==' for p in parts):
-                continue
-            tests = {}
-            for (e, _op, c) in parts:
-                acc = access(e) if e.get('k') in ('idx', 'un') else None
-                if acc is None or not isinstance(acc[1], int):
-                    tests = None
-                    break
-                tests[acc[1]] = c
-            inner = [(a, k) for (a, k) in advs if any(x is a for x in walk(s['t']))]
-            rets = [x for x in walk(s['t']) if x.get('k') == 'return']
-            if tests is None or not inner or not rets:
-                continue
-            found = True
-            n += 1
-            want = {i: ord(ch) for i, ch in enumerate(closer)}
-            ok = tests == want and inner[0][1] == len(closer)
-            R.ob('TAB19', fn, s, '%s recognises its closer %r at the cursor and consumes exactly it' % (name, closer), ok,
-                 'tests %s, advance %d' % ({k: chr(v) for k, v in sorted(tests.items())}, inner[0][1]) if ok else
-                 'tests bytes %s and advances by %d; expected %s and %d' % ({k: chr(v) for k, v in sorted(tests.items())}, inner[0][1],
-                                                                         {k: chr(v) for k, v in want.items()}, len(closer)),
+            b0 = constrained.get(0)
+            if b0 is not None and b0 == frozenset([0]):
+                continue      # left at the terminator
+            n_ob += 1
+            want = {i: frozenset([ord(ch)]) for i, ch in enumerate(closer)}
+            got = {a: v for a, v in constrained.items()}
+            ok = got == want and dmax == len(closer)
+            found = found or ok
+            R.ob('TAB19', fn, None, '%s ends only where the bytes at the cursor spell %r, and steps over exactly them' % (name, closer), ok,
+                 'bytes %s, stepped over %s' % ({a: ''.join(chr(x) for x in sorted(v)[:4]) for a, v in sorted(got.items())}, dmax),
                  key='closer:' + name)
         if not found:
-            raise AnalysisBroken('TAB19: closer test of %s could not be extracted' % name)
-    R.floor('TAB19', 'comment delimiter obligations', n, 4)
+            R.ob('TAB19', fn, None, '%s recognises its closer %r' % (name, closer), False, 'no exit of the scanning loop matches the closer',
+                 key='nocloser:' + name)
+    R.floor('TAB19', 'comment delimiter obligations', n_ob, 4)
 
 
 # ---- TAB20 key order is decided by the comparator functions only ------------------------------------------------
